@@ -14,7 +14,7 @@ Bool == [k |-> "bool"]
 Flt(w, s) == [k |-> "float", w |-> w, sat |-> s]
 Void(w) == [k |-> "void", w |-> w]
 FArr(e, n) == [k |-> "farr", n |-> n, e |-> e]
-VArr(e, c) == [k |-> "varr", cap |-> c, e |-> e]
+VArr(e, c) == [k |-> "varr", cap |-> c, wcap |-> c, e |-> e]
 Struct0(fs, sealed, ext) == [k |-> "struct", fields |-> fs, sealed |-> sealed, extent |-> ext]
 Union0(fs, sealed, ext) == [k |-> "union", fields |-> fs, sealed |-> sealed, extent |-> ext]
 (* sealed composites: the extent is the padded maximum; delimited: maximum + slack bytes *)
